@@ -20,6 +20,7 @@ import (
 	"github.com/jcmturner/gokrb5/v8/keytab"
 	"github.com/jcmturner/gokrb5/v8/spnego"
 
+	_ "verif/props/pcommon" // non-UTC local time zone for the process
 	"verif/ref/accept"
 	"verif/ref/kcrypto"
 	"verif/ref/kmsg"
